@@ -51,7 +51,7 @@ outstanding at the server carries a used stream id `< 32768`; outstanding stream
 a handler registered for stream `s` with request `r` means the server owes `(s, r)`; orphaned ids are outstanding
 and have no handler; while the router lives, every outstanding `(s, r)` is either orphaned or has handler `r`;
 `request_to_stream` is the inverse of `handlers`; request ids in flight are pairwise distinct and below the
-generator; the bitmap has 512 blocks; a waiting caller is parked, queued or registered; a caller holding a
+generator; the bitmap has 512 blocks; a waiting caller is parked, holds channel capacity, is queued or registered; a caller holding a
 frame holds its own. -/
 theorem inv_init : Inv Conn.init := Inv.init
 
@@ -167,15 +167,16 @@ theorem respond_reaches_waiting_caller (c : Conn) (h : Inv c) (hb : c.broken = f
     (hi : c.server[i]? = some (s, r)) (hw : getCaller c.callers r = some .waiting) :
     getCaller (step c (.respond i)).callers r = some (.delivered (.frame r)) := by
   have hmem : (s, r) ∈ c.server := List.mem_of_getElem? hi
-  have hq : r ∉ c.sending ∧ r ∉ c.queue := by
+  have hq : r ∉ c.sending ∧ r ∉ c.queue ∧ r ∉ c.permits := by
     have h1 := h.map.reqOnce r
     have h2 : 0 < (srvReqs c).count r := List.count_pos_iff.mpr (mem_reqs hmem)
-    constructor <;> (intro hm; have := List.count_pos_iff.mpr hm; omega)
+    refine ⟨?_, ?_, ?_⟩ <;> (intro hm; have := List.count_pos_iff.mpr hm; omega)
   obtain ⟨s', hs'⟩ : ∃ s', c.map.handlers.get s' = some r := by
-    rcases h.callers.tracked r hw with m | m | m
+    rcases h.callers.tracked r hw with m | m | m | m
     · exact absurd m hq.1
-    · exact absurd m hq.2
+    · exact absurd m hq.2.1
     · exact m
+    · exact absurd m hq.2.2
   have : s' = s := by
     have hsrv' := h.map.hSrv s' r hs'
     -- request ids outstanding at the server are distinct, so the entry of `r` is unique
